@@ -18,7 +18,7 @@ find props -type d -name gen2 | while read -r d; do
         -e 's#github.com/PapaCharlie/go-restli/v2/#github.com/PapaCharlie/go-restli/#g' \
         -e 's#^package gen2#package gen1#' \
         -e 's#"verifh/props/\([a-z0-9]*\)/gen2"#"verifh/props/\1/gen1"#' \
-        -e 's#"verifh/codec"#"verifh/codec1"#' -e 's#"verifh/gen/all"#"verifh/genr/allr"#' -e 's#"verifh/gen/ks/#"verifh/genr/ks/#' \
+        -e 's#"verifh/codec"#"verifh/codec1"#' -e 's#"verifh/rig"#"verifh/rig1"#' -e 's#"verifh/gen/all"#"verifh/genr/allr"#' -e 's#"verifh/gen/ks/#"verifh/genr/ks/#' \
         -e 's#[A-Za-z0-9_.]* /\*root:\([^*]*\)\*/#\1#g' \
         -e 's#GENERATION = "v2"#GENERATION = "root"#' "$f" > "$o/$(basename "$f")"
   done
@@ -31,4 +31,17 @@ for f in codec/*.go; do
   sed -e 's#github.com/PapaCharlie/go-restli/v2/#github.com/PapaCharlie/go-restli/#g' \
       -e 's#^package codec$#package codec1#' \
       -e 's#verifh/gen/#verifh/genr/#g' "$f" > "codec1/$(basename "$f")"
+done
+
+# rig1: the generic rig for bindings of the root module, derived from rig/ (shim_v2.go is replaced by shim_root.go.in)
+rm -rf rig1; mkdir -p rig1
+for f in rig/*.go; do
+  case "$f" in *_v2.go|*_test.go) continue;; esac
+  sed -e 's#github.com/PapaCharlie/go-restli/v2/restlidata/generated/com/linkedin/restli/common#github.com/PapaCharlie/go-restli/restlidata#g' \
+      -e 's#github.com/PapaCharlie/go-restli/v2/#github.com/PapaCharlie/go-restli/#g' \
+      -e 's#^package rig$#package rig1#' "$f" > "rig1/$(basename "$f")"
+done
+for f in rig/*_root.go.in; do
+  [ -e "$f" ] || continue
+  sed -e 's#^package rig$#package rig1#' "$f" > "rig1/$(basename "${f%.in}")"
 done
